@@ -168,6 +168,13 @@ pub fn strings() -> Vec<Value> {
         s("\u{a0}ǅ ΑΣ\u{2003}"),
         s("bc"),
         s("true"),
+        // context-sensitive case mapping (word-final sigma), one-to-many mappings, Turkish dotted I
+        s("ΟΔΥΣΣΕΥΣ ΑΣ"),
+        s("İstanbul ﬁ ǆ"),
+        // a leap second, and one in the last representable minute
+        s("2016-12-31T23:59:60Z"),
+        s("+262142-12-31T23:59:60.5Z"),
+        s("-262143-01-01T00:00:00Z"),
     ]
 }
 
@@ -226,6 +233,8 @@ pub fn maps() -> Vec<Value> {
         map(&[("a", map(&[("b", Value::Vec(vec![Value::Int(1)]))]))]),
         map(&[("facts", Value::Int(1)), ("A", Value::Int(2)), ("abc", s("x"))]),
         map(&[("1", Value::Int(1)), ("", Value::Int(0))]),
+        // a key that is present and holds none, next to one that holds a value
+        map(&[("abc", Value::None), ("bc", Value::Int(1)), ("1", Value::None)]),
     ]
 }
 
